@@ -27,6 +27,7 @@ import (
 	"os"
 	"os/exec"
 	"path/filepath"
+	"regexp"
 	"sort"
 	"strings"
 	"time"
@@ -106,9 +107,10 @@ func c06Run(payload string) string {
 	switch f[0] {
 	case "X":
 		src := unhx(strings.SplitN(f[4], " ", 2)[0])
-		if f[2] == "cyclic" && os.Getenv("C06_CHILD") == "" {
-			// known finding (fatal stack overflow, cannot be recovered): observed in a child process
-			return c06InChild(payload)
+		if (f[2] == "cyclic" || f[2] == "random") && os.Getenv("C06_CHILD") == "" {
+			// known finding (fatal stack overflow, cannot be recovered): observed in a child process.
+			// Random programs can build a container that contains itself through aliases.
+			return c06InChild(payload, f[2] == "cyclic")
 		}
 		switch f[1] {
 		case "p":
@@ -164,7 +166,7 @@ func c06Run(payload string) string {
 }
 
 // c06InChild runs one case in a child process: CRASH if the process died, otherwise the first word of its class.
-func c06InChild(payload string) string {
+func c06InChild(payload string, firstWord bool) string {
 	exe, err := os.Executable()
 	if err != nil {
 		return "NOCHILD"
@@ -177,10 +179,17 @@ func c06InChild(payload string) string {
 	if ctx.Err() != nil {
 		return "HANG"
 	}
+	line := strings.SplitN(strings.TrimLeft(string(out), "\n"), "\n", 2)[0]
 	if err != nil {
+		if ee, ok := err.(*exec.ExitError); ok && (ee.ExitCode() == 3 || ee.ExitCode() == 4) && line != "" {
+			return line // HANG / PANIC reported by the child
+		}
 		return "CRASH"
 	}
-	return strings.SplitN(strings.TrimSpace(string(out)), " ", 2)[0]
+	if firstWord {
+		return strings.SplitN(line, " ", 2)[0]
+	}
+	return line
 }
 
 // ---------------------------------------------------------------- generator
@@ -250,6 +259,18 @@ var c06Directed = []string{
 var c06Cyclic = []string{
 	"a := [1]\na[0] := a\n\"{{a}}\"", "a := [1]\na[0] := a\nlog(a)", "a := [1]\na[0] := a\na >= \"s\"", "a := [1]\na[0] := a\n1 % a",
 	"a := {\"k\":1}\na.k := a\n\"{{a}}\"", "a := [1]\na[0] := a\ntype(a)",
+}
+
+var c06ElemAssign = regexp.MustCompile(`^\s*[abc](\[|\.)[^=]*:= (.*)$`)
+var c06ContainerVar = regexp.MustCompile(`\b[abc]\b`)
+
+func c06MayCycle(src string) bool {
+	for _, line := range strings.Split(src, "\n") {
+		if m := c06ElemAssign.FindStringSubmatch(line); m != nil && c06ContainerVar.MatchString(m[2]) {
+			return true
+		}
+	}
+	return false
 }
 
 func c06GenCases(g *Gen) {
@@ -400,7 +421,14 @@ func c06GenCases(g *Gen) {
 	}
 	eg := NewEvGen(g.R, EvGenConfig{Depth: 3, Builtins: true, Interp: true, Funcs: true, Loops: true, Try: true, Malformed: 100})
 	for k := 0; k < n; k++ {
-		c.prog("random", "-", eg.Program(), "p")
+		src := eg.Program()
+		if c06MayCycle(src) {
+			// an element assignment whose right side mentions a container variable can build a container
+			// that contains itself (through an alias): the known finding has its own directed cases
+			g.Count("random.skipped-may-cycle")
+			continue
+		}
+		c.prog("random", "-", src, "p")
 	}
 }
 
